@@ -6,6 +6,7 @@ import (
 	"encoding/json"
 	"fmt"
 	"runtime/debug"
+	"sync"
 
 	"github.com/ossrs/go-oryx-lib/aac"
 	"github.com/ossrs/go-oryx-lib/amf0"
@@ -155,34 +156,41 @@ func callMethod(m method, v int) (pan interface{}, stack string) {
 }
 
 func enumBatch(c *rp.Ctx, raws []json.RawMessage) []rp.Result {
-	res := make([]rp.Result, len(raws))
 	counts := map[string]int64{}
-	for i, raw := range raws {
+	var mu sync.Mutex
+	res := runParallel(c, len(raws), 1, func(w *worker, i int) rp.Result {
 		var cs enumCase
-		if err := json.Unmarshal(raw, &cs); err != nil {
+		if err := json.Unmarshal(raws[i], &cs); err != nil {
 			rp.Bug("case %d: %v", i, err)
 		}
 		ms, ok := enumMethods[cs.T]
 		if !ok {
 			rp.Bug("case %d: unknown enum type %q", i, cs.T)
 		}
-		res[i] = rp.Result{I: i, OK: true, Nontriv: true}
+		r := rp.Result{I: i, OK: true, Nontriv: true}
+		w.begin(fmt.Sprintf("the methods of %s for the values %d..%d", cs.T, cs.Lo, cs.Lo+cs.N-1))
 		for v := cs.Lo; v < cs.Lo+cs.N; v++ {
 			for _, m := range ms {
+				mu.Lock()
 				counts[cs.T+"."+m.name]++
-				if pan, stack := callMethod(m, v); pan != nil && res[i].OK {
+				mu.Unlock()
+				if pan, stack := callMethod(m, v); pan != nil && r.OK {
 					fr := libFrames(stack)
 					at := ""
 					if len(fr) > 0 {
 						at = " at " + fr[0]
 					}
-					res[i] = rp.Result{I: i, OK: false, Nontriv: true,
+					r = rp.Result{I: i, OK: false, Nontriv: true,
 						What:     fmt.Sprintf("%s.%s is not total: panic%s for value %d: %v", cs.T, m.name, at, v, pan),
 						Observed: map[string]interface{}{"stack": stack}}
 				}
 			}
 		}
-	}
+		w.end()
+		return r
+	})
+	mu.Lock()
+	defer mu.Unlock()
 	st := newStats()
 	var total int64
 	for _, n := range counts {
